@@ -93,12 +93,25 @@ class C09(Prop):
                         ops.append("u64 k=%d" % rng.choice([1, 2, 311, 312, 313, 624, rng.randrange(1, 3000), rng.randrange(1, 50000 if ctx.tier != "quick" or c < 10 else 3000)]))
                     elif r < 0.6:
                         ops.append("roll64 n=%d" % rng.choice([1, 2, 3, 6, 2**32, 2**63, 2**64 - 1, 2**63 + 1, rng.randrange(1, 2**64)]))
+                    elif r < 0.68:
+                        nn = rng.choice([1, 2, 5, 14, 100, 1000, rng.randrange(1, 5000), rng.randrange(1, 10**6), 2**40])
+                        mm = rng.choice([1, 1, 2, min(nn, 13), min(nn, 50), nn if nn < 3000 else 100, rng.randrange(1, min(nn, 2000) + 1)])
+                        mm = max(1, min(mm, nn))          # precondition of esl_rand64_Deal: 1 <= m <= n
+                        ops.append("deal64 m=%d n=%d" % (mm, nn))
+                        ops.append("new64 seed=%d" % rng.randrange(1, 1 << 64))   # model does not track deal64's draws
                     elif r < 0.75: ops.append("dbl64")
                     elif r < 0.85: ops.append("dblclosed")
                     elif r < 0.95: ops.append("dblopen")
                     else: ops.append("new64 seed=%d" % s64)
             out.append({"name": "gen%d" % c, "ops": ops, "sticky": 1})
         return out
+
+    def compare(self, ctx, case, impl_out, model_out):
+        # ops the model answers with "unmodelled" are judged by the monitor only
+        keep = [i for i, m in enumerate(model_out) if m != "unmodelled"]
+        if len(impl_out) != len(model_out):
+            return super().compare(ctx, case, impl_out, model_out)
+        return super().compare(ctx, case, [impl_out[i] for i in keep], [model_out[i] for i in keep])
 
     def nontrivial(self, case, out):
         return len(out) >= 2 and all(l.startswith("ok") for l in out)
@@ -115,7 +128,7 @@ class C09(Prop):
                 v = int(l.split()[1])
                 if not (0 <= v < int(kv["n"])):
                     return Failure("monitor", "roll of n=%s returned %d" % (kv["n"], v))
-            elif w[0] == "deal":
+            elif w[0] in ("deal", "deal64"):
                 m, n = int(kv["m"]), int(kv["n"])
                 vals = [int(x) for x in l[3:].split(",") if x]
                 if len(vals) != m or any(not (0 <= v < n) for v in vals) or any(a >= b for a, b in zip(vals, vals[1:])):
